@@ -8,6 +8,7 @@ import (
 	"net/http"
 	"sort"
 	"strings"
+	"sync"
 
 	"connectrpc.com/connect"
 	"connectrpc.com/vanguard"
@@ -96,6 +97,10 @@ type Config struct {
 	RuleSel     []string
 	ExtraOpts   []vanguard.ServiceOption
 	TOpts       []vanguard.TranscoderOption
+	// Decoy registers a second, unrelated service AFTER the one under test, with options that
+	// are the opposite of a restrictive configuration (every protocol, every codec, every
+	// compression). Options of one service must not leak into another.
+	Decoy bool
 }
 
 // FormToProtocol maps a server-side wire form to the vanguard protocol constant.
@@ -151,7 +156,13 @@ func Build(cfg Config, handler http.Handler) (*vanguard.Transcoder, error) {
 		to = append(to, vanguard.WithUnknownHandler(cfg.Unknown))
 	}
 	to = append(to, cfg.TOpts...)
-	return vanguard.NewTranscoder([]*vanguard.Service{vanguard.NewServiceWithSchema(svc, handler, so...)}, to...)
+	services := []*vanguard.Service{vanguard.NewServiceWithSchema(svc, handler, so...)}
+	if cfg.Decoy {
+		services = append(services, vanguard.NewServiceWithSchema(decoyService(), handler,
+			vanguard.WithTargetProtocols(vanguard.ProtocolConnect, vanguard.ProtocolGRPC, vanguard.ProtocolGRPCWeb),
+			vanguard.WithTargetCodecs("json", "proto", "alt"), vanguard.WithTargetCompression("gzip", "rev"), vanguard.WithMaxMessageBufferBytes(1<<30), vanguard.WithMaxGetURLBytes(1<<20)))
+	}
+	return vanguard.NewTranscoder(services, to...)
 }
 
 // ---------------------------------------------------------------------------------
@@ -421,4 +432,20 @@ func (b *Backend) SeenHeader() http.Header {
 		return nil
 	}
 	return b.Seen.Header
+}
+
+var (
+	decoyOnce sync.Once
+	decoySvc  protoreflect.ServiceDescriptor
+)
+
+func decoyService() protoreflect.ServiceDescriptor {
+	decoyOnce.Do(func() {
+		var err error
+		decoySvc, err = BuildService("verif/decoy/svc.proto", "verif.decoy", "Decoy", []MethodSpec{{Name: "Noop"}})
+		if err != nil {
+			panic(err)
+		}
+	})
+	return decoySvc
 }
